@@ -16,6 +16,7 @@ grep '^fixed: ' "$here/known_findings.txt" | while read -r _ prop commit _; do
      git show "$commit" -- cnfgen > "$work/p.diff" && \
      git apply -R --3way "$work/p.diff" >/dev/null 2>&1 && \
      [ -z "$(git diff --name-only --diff-filter=U)" ]) || { echo "$commit $id CONFLICT"; continue; }
+  (cd "$work/r" && /venv/bin/python -W ignore -c "import cnfgen, cnfgen.clitools.cnfgen, cnfgen.clitools.pbgen" >/dev/null 2>&1) || { echo "$commit $id CONFLICT (the tree no longer imports)"; continue; }
   VERIF_REPO="$work/r" VERIF_OUT="$work/out" VERIF_SHRINK_S=0 "$here/check" "$id" quick >"$work/log" 2>&1; st=$?
   case $st in
     1) echo "$commit $id CAUGHT";;
